@@ -239,10 +239,10 @@ def run(prog: Program) -> Results:
         return [n for n in ast.walk(sp.node) if isinstance(n, (ast.Assign, ast.AugAssign)) and
                 norm(n.targets[0] if isinstance(n, ast.Assign) else n.target) == name]
 
-    whole_count = [c for c in ast.walk(sp.node) if isinstance(c, ast.Call) and isinstance(c.func, ast.Attribute) and c.func.attr == "count"
-                   and norm(c.func.value) == src]
+    whole_count = [c for c in ast.walk(sp.node) if isinstance(c, ast.Call) and isinstance(c.func, ast.Attribute)
+                   and c.func.attr in ("count", "rfind", "rindex", "rpartition", "rsplit", "split") and norm(c.func.value) == src]
     if whole_count:
-        verdict, why = False, f"`{norm(whole_count[0])}` counts every `@` of the path, also those inside quoted names"
+        verdict, why = False, f"`{norm(whole_count[0])}` looks at every `@` of the path, also those inside quoted names"
     elif len(rets) == 1:
         d_expr, r_expr = rets[0].value.elts
         d_name = d_expr.id if isinstance(d_expr, ast.Name) else None
